@@ -124,6 +124,12 @@ def _check_case(root, spec, pps, absolute, cfg, out, armed, alias):
                 bfres = ['<%s>' % type(e).__name__]
             with util.chdir(root):
                 cres = G.glob(pats, flags=fl, **xk)
+            # a descriptor of the parent directory plus a relative root_dir: the root is <fd>/<root_dir>
+            pfd = os.open(os.path.dirname(root), os.O_RDONLY)
+            try:
+                pres2 = G.glob(pats, flags=fl, dir_fd=pfd, root_dir=os.path.basename(root), **xk)
+            finally:
+                os.close(pfd)
     except util.HarnessBudget:
         out.stats['budget_skipped'] += 1
         return None
@@ -134,7 +140,8 @@ def _check_case(root, spec, pps, absolute, cfg, out, armed, alias):
         out.violation(dict(case, problem='iglob differs from glob', glob=res[:8], iglob=ires[:8]), bucket=('iglob',))
         return res
     base = set(res)
-    for label, other in [('bytes root', bres), ('PathLike root', pres), ('dir_fd', fres), ('bytes patterns with dir_fd', bfres), ('cwd', cres)] + sres:
+    for label, other in [('bytes root', bres), ('PathLike root', pres), ('dir_fd', fres), ('bytes patterns with dir_fd', bfres), ('cwd', cres),
+                         ('dir_fd of the parent with a relative root_dir', pres2)] + sres:
         out.evaluations += 1
         if set(other) != base:
             out.violation(dict(case, problem='result set depends on how the root is given: ' + label, root_dir=sorted(base)[:8],
